@@ -132,7 +132,10 @@ EvSortBegin(e) ==
     Res(U_SortBegin(s), If(G_SortBegin(s), "G:SortBegin") \cup If(cx.call.f = "compute" /\ e.v[1] = cx.call.sort, "SortingForwarded"), cx)
 EvSortEnd(e) == Res(U_SortEnd(s), If(G_SortEnd(s), "G:SortEnd"), cx)
 \* complex-shift post-processing happens between the loop and sort_ritzpair
-EvProbe(e) == Res(s, If(s.pc = "c_sort", "G:Probe"), cx)
+EvProbe(e) ==
+    CASE e.e = "ProbeShift" -> Res(U_ProbeBegin(s), If(G_ProbeBegin(s), "G:ProbeBegin"), cx)
+      [] e.e = "BackDone" -> Res(U_ProbeEnd(s), If(G_ProbeEnd(s), "G:ProbeEnd"), cx)
+      [] OTHER -> Res(s, If(G_ProbeStep(s), "G:ProbeStep"), cx)
 EvComputeEnd(e) ==
     LET r == e.v[1] inf == InfoName(e.v[2]) ni == e.v[3] o == e.v[4] IN
     Res(U_ComputeEnd(s, r, inf, ni, o), If(G_ComputeEnd(s, r, inf, ni, o), "G:ComputeEnd"),
